@@ -42,7 +42,7 @@ buffers::replace_byte(b'\n', b' ', &mut line[col + 1..]);
 //@@ =>
 vp_replace_tail(b'\n', b' ', &mut line, col + 1);
 //@@ splice before
-const MAX_LINE_LEN: u64 = 16 * 1024;
+const MAX_LINE_LEN
 //@@ with
     broadcast use fidx::group_first_idx;
 //@@ splice after
@@ -105,7 +105,7 @@ headers.append(
 //@@ contract
     ensures
         res matches Ok(sh) ==> ({ // id: head_is_exactly_what_was_sent [C04,C19]
-            let w = wire(old(reader)); let n = until_len(w, 16384, 10u8);
+            let w = wire(old(reader)); let n = until_len(w, HEAD_LINE_MAX, 10u8);
             &&& status_spec(line_of(w, n)) == Some(status_u16(sh.0))
             &&& rest(w.skip(n), Seq::empty(), max_headers as nat) == Some((hm_bytes(&sh.1), wire(final(reader))))
         }),
